@@ -77,6 +77,7 @@ type Features struct {
 	ValueTypeID    bool // value types with a plain (non Node) id field
 	ListOfLists    bool
 	WeirdIDs       bool // ids with separators : # . and spaces
+	IDOnlyEntity   bool // the last entity type has no field but id
 	EmptyAbstract  bool // an interface without implementers and a root field returning it
 	Uploads        bool // scalar Upload, input FileInput and mutation fields taking files
 }
@@ -135,6 +136,8 @@ func DefaultFeatures(t *tape.Tape) Features {
 		ArgDefaults:   t.Bool(1, 3),
 		Mutations:     t.Bool(1, 2),
 		Subscriptions: false,
+		WeirdIDs:      t.Bool(1, 5),
+		IDOnlyEntity:  t.Bool(1, 6),
 	}
 }
 
@@ -283,8 +286,11 @@ func Generate(t *tape.Tape, feat Features, maxServices int) *World {
 			w.Types[m].Implements = append(w.Types[m].Implements, in)
 		}
 	}
-	for _, en := range ents {
+	for ei, en := range ents {
 		nf := 1 + t.Choose(4)
+		if feat.IDOnlyEntity && ei == len(ents)-1 && len(ents) >= 2 && len(w.Types[en].Fields) == 0 {
+			nf = 0 // type T implements Node { id: ID! }
+		}
 		for j := 0; j < nf; j++ {
 			f := &FieldDef{Name: fname(en), Owner: t.Choose(w.K)}
 			f.Type = g.outTypeRef(false)
@@ -382,6 +388,9 @@ func (w *World) kind(k string) []string {
 	}
 	return out
 }
+
+// EntityNames lists the entity (Node) types in declaration order.
+func (w *World) EntityNames() []string { return w.kind("entity") }
 
 // dropIdleServices renumbers owners so that every service owns at least one field.
 func (w *World) dropIdleServices() {
